@@ -159,6 +159,8 @@ def query_entities(chk, facts):
                     good = (last == "eq" and any(c.endswith("Decision::Allow") for c in consts)) or (last == "ne" and any(c.endswith("Decision::Deny") for c in consts))
                     if good and _returned_plain(g, t[3][0]):
                         ok_cmp = True
+                if not ok_cmp:
+                    ok_cmp = _match_allow(facts, g)
             n += 1
             chk.ob(rule, "%s:reauthorize" % qname, ok_req and ok_ent and ok_pol and ok_cmp,
                    "concrete re-authorization uses to_request(candidate): %s, the entities argument: %s, the response's policy_set() or the policy set: %s, and keeps a candidate exactly when the decision is Allow: %s" % (ok_req, ok_ent, ok_pol, ok_cmp),
@@ -177,6 +179,31 @@ def query_entities(chk, facts):
         chk.ob(rule, "%s:tpe-inputs" % qname, ok, "TPE runs on this policy set, the query's partial request and partial entities made from the entities argument: %s" % ok,
                where=f.where(), fn=f.name, key="%s:%s:tpe" % (rule, qname))
     chk.floor(rule, "query obligations", n, 14)
+
+
+def _match_allow(facts, g):
+    """`matches!(resp.decision(), Decision::Allow)`: a switch on the decision's discriminant whose Allow edge alone yields true"""
+    adt = facts.adts.get("cedar_policy_core::authorizer::Decision")
+    if not adt:
+        return False
+    names = [v["name"] for v in adt["variants"]]
+    for b, blk in enumerate(g.blocks):
+        if blk["cl"] or blk["t"][0] != "sw" or not panics.cond_desc(g, b).startswith("disc:Decision"):
+            continue
+        t = blk["t"]
+        targets = {("else" if v == "else" else names[v] if isinstance(v, int) and v < len(names) else str(v)): tg for v, tg in list(t[2]) + [("else", t[3])]}
+        def val(tg):
+            vals = set()
+            for bb in cfg.reachable(g, tg, cut_blocks={b}):
+                for s_ in g.blocks[bb]["st"]:
+                    if s_[0] == "a" and s_[1] == [0] and s_[2][0] == "use" and s_[2][1][0] == "k" and "v" in s_[2][1][1]:
+                        vals.add(s_[2][1][1]["v"])
+            return vals
+        allow = val(targets["Allow"]) if "Allow" in targets else None
+        others = [val(tg) for k, tg in targets.items() if k != "Allow" and tg != targets.get("Allow") and not g.blocks[tg]["t"][0] == "unr"]
+        if allow == {1} and others and all(o == {0} for o in others):
+            return True
+    return False
 
 
 def _returned_plain(g, local):
